@@ -263,6 +263,12 @@ def drive(tier):
             continue                    # the failure is on record above
         k, v = call(CBlock.deserialize, enc)
         R.add("wire.deser", {"kind": "block", "buf": b2l(enc), "pad": False, "obj": js}, classify("block", k, v))
+        if d["vtx"]:
+            # the declared merkle root is a field like any other on the wire: an all-zero (or any other) root comes back as sent
+            for root_ in (bytes(32), bytes([enc[36] ^ 1]) + enc[37:68]):
+                enc0 = enc[:36] + root_ + enc[68:]
+                k0, v0 = call(CBlock.deserialize, enc0)
+                R.add("wire.deser", {"kind": "block", "buf": b2l(enc0), "pad": False, "obj": gen.block_json(dict(d, merkle=root_))}, classify("block", k0, v0))
         cuts = cuts_for(enc, r, 1200)
         ks = [classify("block", *call(CBlock.deserialize, enc[:c]))["k"] for c in cuts]
         R.add("wire.prefixes", {"kind": "block", "buf": b2l(enc), "cuts": cuts, "obj": js, "probe": probe_for(cuts, r)}, {"ks": ks})
